@@ -680,6 +680,9 @@ def det_prog(rng):
             body.insert(len(names) + 0, "bgtz a0, f%d" % (i - 1))
         funcs.append(body)
     main += ["li a7, 10", "ecall"]
+    if rng.random() < 0.3:      # a function that is the first instruction of the program AND entered by a plain jump
+        main.insert(len(main) - 2, "j f0")
+        return [("a.s", "\n".join(funcs[0] + main + [l for f in funcs[1:] for l in f]) + "\n")], "a.s"
     if rng.random() < 0.5 or nf == 0:
         return [("a.s", "\n".join(main + [l for f in funcs for l in f]) + "\n")], "a.s"
     files = [("a.s", "\n".join(main) + "\n" + "".join('.include "f%d.s"\n' % i for i in range(nf)))]
